@@ -30,6 +30,30 @@ theorem crl_validateCRL :
       ["crl.NextUpdate.IsZero()", "now.After(crl.NextUpdate)", "ext.Id.Equal(oidIssuingDistributionPoint)",
        "ext.Id.Equal(oidDeltaCRLIndicator)"] := rfl
 
+/-- CRL `validate`: delta number must be strictly greater, indicator must not exceed — Model.Crl.validate -/
+theorem crl_validate :
+    Shape.crl_validate =
+      ["deltaCRL.Number.Cmp(baseCRL.Number) <= 0", "minimumBaseCRLNumber.Cmp(baseCRL.Number) > 0"] := rfl
+
+/-- CRL `CertCheckStatus`: every failure inside the distribution-point loop `break`s (never
+    `continue`s), a revocation `return`s — Model.Crl.loop -/
+theorem crl_certCheckStatus_exits :
+    Shape.crl_certCheckStatus_exits = ["break", "break", "break", "break", "return"] := rfl
+
+/-- `ValidateContext`: buffered panic channel of capacity len(chain), one goroutine per
+    certificate with `defer wg.Done()` + recover-and-send, writing only its own slot, `wg.Wait()`
+    after the loop — Model.Conc -/
+theorem revocation_ValidateContext_conc :
+    Shape.revocation_ValidateContext_conc =
+      ["make-chan cap=len(certChain)", "wg.Add", "go {defer wg.Done; defer recover-and-send} writes{certResults[param]}",
+       "wg.Add", "go {defer wg.Done; defer recover-and-send} writes{certResults[param]}", "wg.Wait"] := rfl
+
+/-- `ocsp.CheckStatus` (after the F11 repair: same recover structure) — Model.Conc -/
+theorem ocsp_CheckStatus_conc :
+    Shape.ocsp_CheckStatus_conc =
+      ["make-chan cap=len(opts.CertChain)", "wg.Add",
+       "go {defer wg.Done; defer recover-and-send} writes{certResults[param]}", "wg.Wait"] := rfl
+
 /-- CRL `checkRevocation` — Model.Crl.checkRevocation -/
 theorem crl_checkRevocation :
     Shape.crl_checkRevocation =
